@@ -72,7 +72,9 @@ def run_pair(env, kind, q, ext, scratch, viol, stats):
                 # fewer executions than the simulation predicts (e.g. two keys sharing one entry) is not a re-execution;
                 # the value is still compared below
                 env.count("executed_fewer_than_simulated")
-        for field, detail in E.compare_outcomes(ref, got):
+        for field, detail in E.compare_outcomes(ref, got, env, text):
+            if field in E.JSON_IMAGE_FIELDS:
+                continue    # state variables are C04's subject; the JSON image of a tuple is its listed finding
             viol(phase + ".result_" + field, "%s: %s evaluation of %r: %s" % (kind, phase, text, detail))
         if phase == "cold":
             out = env.interp(canon)
